@@ -53,6 +53,17 @@ func namedOf(t types.Type) *types.Named {
 // compositeLits returns, for every composite literal of struct type `of` inside the function's
 // syntax, the set of field names it sets.
 func (p *Prog) compositeLits(f *ssa.Function, of *types.Named) []map[string]ast.Expr {
+	var out []map[string]ast.Expr
+	// a literal moved into a transparent helper (newfn.go) still belongs to f
+	for _, g := range bodyFuncs(f, false) {
+		if g != f {
+			out = append(out, p.compositeLits1(g, of)...)
+		}
+	}
+	return append(p.compositeLits1(f, of), out...)
+}
+
+func (p *Prog) compositeLits1(f *ssa.Function, of *types.Named) []map[string]ast.Expr {
 	info := p.InfoFor(f)
 	syn := f.Syntax()
 	if info == nil || syn == nil {
